@@ -1,4 +1,42 @@
-(* ListRuns.v - C11 (`list`) lifted to whole sessions. *)
+(* ListRuns.v - C11 (`list`) lifted to whole sessions.
+
+   "`list` shows exactly the recorded messages - of the selected connection, or of all connections
+    when none is selected - that match the given matcher (or the current filter when none is given),
+    oldest first; with `~ N` (N >= 1) exactly the last N of them; the matched / didn't match / not
+    checked counts add up to the number of messages recorded.  Listing never changes the filter, the
+    breakpoints, the selected connection or what is recorded."
+
+   Any start state [T] (side condition [idx_ok]: every recorded message names an existing
+   connection - true initially, preserved by every log-mode event, needed: [corner_idx_ok_needed]),
+   any list of log-mode events (EMsg, EText, ECmd).
+
+   [record_is_delivered]    1. k_all after the run = k_all before ++ the (connection, message) pairs
+                            delivered by the EMsg events ([arrival_top] = ADelivered), in order.  Text
+                            lines and commands add nothing; a refused line (RuntimeError: ASoft, or
+                            worse: AHard) and a line arriving while decoding is off add nothing.
+   [own_list_is_attempted]  the connection's OWN list (c_msgs, what `list` reads when that connection
+                            is selected) = its list before ++ EVERY line attributed to it ([attempt]),
+                            accepted or refused: a refused message is kept there, partially resolved.
+   [list_event]             2. the k-th event is a command resolving to `list` with argument [a]:
+                            the state after differs from the state before at most in the separator
+                            memory ([same_view]); the output is [list_query]: a bad cap -> one error
+                            line; otherwise a [listing] for the parsed-and-simplified matcher (the
+                            current filter when the matcher text is empty; "nothing matches" behind a
+                            "Failed to parse" line when it does not parse) and the cap.
+   [listing]                header; then either "None of the <size of scope> messages so far", or the
+                            items - exactly [lastn_opt cap (filter matches scope)], rendered through
+                            the connection's current table, with separators only in between - and the
+                            counts line, matched + didn't + not checked = size of the scope.
+   [list_shows_delivered]   3. = 1 + 2: scope = start record ++ deliveries BEFORE k (no selection),
+                            or the selected connection's start list ++ its attempts BEFORE k.
+   [selected_scope_is_restriction]  the two scopes agree on a connection when nothing was refused on it
+                            (given a coherent start); [corner_refused_listed] shows them disagree.
+   [repeated_list]          4. the same `list` again with only text lines and commands other than
+                            `filter` / `connection` in between prints exactly the same lines.
+   [ListExamples]           5. two connections, `connection B`, `list`, `list wl_registry ~ 1`,
+                            `list (`, cap > matches, and the corners: `~ 0` = no cap, `~ -2` = cap 1,
+                            `~ 1 ~ 2` = no cap (silently), `~ x` = error only, refused message listed
+                            under its connection but not under "all". *)
 From WD Require Import Base Wire Protocol Conn Color LetterId Matcher MatcherParse Show Session.
 From WD Require Import ProtocolProofs LetterIdProofs ControllerProofs SessionProofs ConnMgrProofs IsolationRuns.
 From WD Require Import StreamSpecA SeparatorRuns SessionColorD.
@@ -582,8 +620,9 @@ Proof.
 Qed.
 
 (* which command (and argument text) a typed line resolves to: abbreviations, `w` / `wl` prefixes,
-   colour sequences stripped; it does not depend on the colour switch *)
-Definition resolved (c : str) : option (str * str) := snd (resolve_cmd command_fuel false c).
+   colour sequences stripped; it does not depend on the colour switch
+   (a notation, so that no proof ever has to unfold anything next to [command_fuel]) *)
+Notation resolved c := (snd (resolve_cmd command_fuel false c)).
 
 Lemma resolved_any fuel on c : snd (resolve_cmd fuel on c) = snd (resolve_cmd fuel false c).
 Proof. destruct on; [apply (resolve_cmd_sim fuel c)|reflexivity]. Qed.
@@ -633,12 +672,12 @@ Qed.
 Section ListEvents.
 Variable P : pdb.
 
-Lemma step_cmd T c :
-  step P T (ECmd c) = (mkTop (t_base T) (fst (process_command command_fuel (t_sess T) c)),
-                       snd (process_command command_fuel (t_sess T) c)).
+Lemma step_cmd_list T c a : resolved c = Some (s2l "list", a) ->
+  t_sess (fst (step P T (ECmd c))) = fst (cmd_list (t_sess T) a) /\
+  snd (step P T (ECmd c)) = snd (cmd_list (t_sess T) a).
 Proof.
-  destruct T as [b s]. unfold step. cbn [t_sess t_base].
-  generalize (process_command command_fuel s c). intros [s1 o]. reflexivity.
+  intros Hr. destruct T as [b s]. unfold step. cbn [t_sess t_base].
+  rewrite (process_list command_fuel s c a Hr). destruct (cmd_list s a) as [s1 o]. split; reflexivity.
 Qed.
 
 (* the state after the first k+1 events is one step from the state after the first k *)
@@ -677,8 +716,7 @@ Proof.
   eexists. split; [apply run_nth; exact Hk|].
   pose proof (idx_ok_run P (firstn k evs) T (forallb_firstn_log evs k Hl) Hok) as Hok'.
   set (Tk := fst (run P T (firstn k evs))) in *.
-  rewrite step_cmd. cbn [fst snd t_sess].
-  rewrite (process_list command_fuel (t_sess Tk) c a Hr).
+  destruct (step_cmd_list Tk c a Hr) as [-> ->].
   exact (cmd_list_spec (t_sess Tk) a Hok').
 Qed.
 
@@ -742,3 +780,321 @@ Proof.
 Qed.
 
 End ListEvents.
+
+(* ---- 3'. the selected connection's own list versus the record ------------------------------------- *)
+Section Restriction.
+Variable P : pdb.
+
+Definition on_conn (j : nat) (l : list (nat * rmsg)) : list (nat * rmsg) := filter (fun p => Nat.eqb (fst p) j) l.
+
+(* no message line attributed to connection [j] is refused during the run *)
+Fixpoint none_refused (T : top) (evs : list event) (j : nat) : Prop :=
+  match evs with
+  | [] => True
+  | e :: evs' => map snd (on_conn j (delivered1 P T e)) = own1 P T e j /\ none_refused (fst (step P T e)) evs' j
+  end.
+
+Lemma own_delivered evs : forall T j, none_refused T evs j ->
+  own P T evs j = map snd (on_conn j (delivered P T evs)).
+Proof.
+  induction evs as [|e evs IH]; intros T j H; [reflexivity|]. destruct H as [H1 H2].
+  cbn [own delivered]. unfold on_conn in *. rewrite filter_app, map_app, <- H1, (IH _ _ H2). reflexivity.
+Qed.
+
+Lemma pair_on_conn j l : map (fun m => (j, m)) (map snd (on_conn j l)) = on_conn j l.
+Proof.
+  induction l as [|[i m] l IH]; [reflexivity|]. unfold on_conn in *. cbn [filter fst].
+  destruct (Nat.eqb i j) eqn:E; [|exact IH]. apply Nat.eqb_eq in E. subst i. cbn [map snd]. rewrite IH. reflexivity.
+Qed.
+
+(* if the start state's list of connection [j] is the record restricted to [j], and no line for
+   [j] is refused, the scope of a listing with [j] selected is the record restricted to [j] *)
+Theorem selected_scope_is_restriction T evs j :
+  msgs_at (t_sess T) j = map snd (on_conn j (kall T)) -> none_refused T evs j ->
+  scope_run P T evs (Some j) = on_conn j (scope_run P T evs None).
+Proof.
+  intros H0 Hn. unfold scope_run. rewrite H0, (own_delivered evs T j Hn), <- map_app.
+  unfold on_conn. rewrite <- filter_app. apply pair_on_conn.
+Qed.
+
+End Restriction.
+
+(* ---- 4. the same command again -------------------------------------------------------------------- *)
+Lemma show_messages_view s s' mm cap : list_view s s' ->
+  snd (show_messages s' mm cap) = snd (show_messages s mm cap).
+Proof.
+  intros (Hc & Ha & Hd & Hcur & Hcol). rewrite !show_messages_eq. cbn zeta.
+  assert (Hs : conn_messages_of s' (k_current (s_ctrl s')) = conn_messages_of s (k_current (s_ctrl s))).
+  { unfold conn_messages_of. rewrite Hcur, Ha, Hc. reflexivity. }
+  rewrite Hs, (scan_matching_conns s' s mm (cap_of cap) _ Hc), Hcol, Hc.
+  destruct (scan_matching s mm (cap_of cap) _ [] 0) as [[res d] ns].
+  destruct res; [reflexivity|]. destruct (fold_left _ _ _). reflexivity.
+Qed.
+
+Lemma list_query_view s s' a : list_view s s' -> list_query s' a = list_query s a.
+Proof. intros (_ & _ & Hd & _ & Hcol). unfold list_query. rewrite Hd, Hcol. reflexivity. Qed.
+
+(* the output of `list` is a function of what [list_view] compares *)
+Lemma cmd_list_view s s' a : list_view s s' -> snd (cmd_list s' a) = snd (cmd_list s a).
+Proof.
+  intros H. rewrite !cmd_list_eq, (list_query_view s s' a H).
+  destruct (list_query s a) as [errs mm cap|e]; [|reflexivity]. cbn [snd].
+  rewrite (show_messages_view s s' mm cap H). reflexivity.
+Qed.
+
+Lemma show_messages_keeps s mm cap : list_view s (fst (show_messages s mm cap)).
+Proof.
+  unfold show_messages. destruct (scan_matching _ _ _ _ _ _) as [[res d] ns].
+  destruct res; [repeat split|]. destruct (fold_left _ _ _). repeat split.
+Qed.
+
+Ltac keepv :=
+  repeat match goal with
+         | |- context [if ?b then _ else _] => destruct b
+         | |- context [match ?x with _ => _ end] => destruct x
+         end; repeat split.
+
+(* every command but `filter` and `connection` leaves what a listing reads alone *)
+Lemma run_command_keeps s name arg : name <> s2l "filter" -> name <> s2l "connection" ->
+  list_view s (fst (run_command s name arg)).
+Proof.
+  intros Hf Hc. unfold run_command.
+  destruct (str_eqb name (s2l "help")). { unfold cmd_help. keepv. }
+  destruct (str_eqb name (s2l "list")).
+  { rewrite cmd_list_eq. destruct (list_query s arg); [apply show_messages_keeps|repeat split]. }
+  destruct (str_eqb name (s2l "filter")) eqn:E1. { apply str_eqb_eq in E1. contradiction. }
+  destruct (str_eqb name (s2l "breakpoint")). { unfold cmd_break. keepv. }
+  destruct (str_eqb name (s2l "matcher")). { unfold cmd_matcher. keepv. }
+  destruct (str_eqb name (s2l "connection")) eqn:E2. { apply str_eqb_eq in E2. contradiction. }
+  destruct (str_eqb name (s2l "resume")); [repeat split|]. destruct (str_eqb name (s2l "quit")); repeat split.
+Qed.
+
+Definition keeps_name (r : option (str * str)) : Prop :=
+  match r with Some (n, _) => n <> s2l "filter" /\ n <> s2l "connection" | None => True end.
+
+Lemma process_command_keeps fuel s c : keeps_name (snd (resolve_cmd fuel false c)) ->
+  list_view s (fst (process_command fuel s c)).
+Proof.
+  intros H. rewrite <- (resolved_any fuel (s_color s) c) in H. unfold process_command.
+  destruct (resolve_cmd fuel (s_color s) c) as [pre [[name arg]|]]; [|repeat split]. cbn [snd keeps_name] in H.
+  pose proof (run_command_keeps s name arg (proj1 H) (proj2 H)) as K.
+  destruct (run_command s name arg). exact K.
+Qed.
+
+(* the events that cannot change what a listing reads: text lines, and commands that do not
+   resolve to `filter` or `connection` (among them `list` itself) *)
+Definition keeps_event (e : event) : Prop :=
+  match e with
+  | EText _ => True
+  | ECmd c => keeps_name (resolved c)
+  | _ => False
+  end.
+
+Section Repeat.
+Variable P : pdb.
+
+Lemma step_keeps T e : keeps_event e -> list_view (t_sess T) (t_sess (fst (step P T e))).
+Proof.
+  destruct e as [id m|t|c| | | | | | | ]; cbn [keeps_event]; try contradiction; intros H.
+  - rewrite text_passthrough. apply list_view_refl.
+  - destruct T as [b s]. unfold step. cbn [t_sess t_base].
+    pose proof (process_command_keeps command_fuel s c H) as K. revert K.
+    generalize (process_command command_fuel s c). intros [s1 o] K. exact K.
+Qed.
+
+Lemma segment_keeps T evs j : forall n,
+  (forall i, (j <= i < j + n)%nat -> exists e, nth_error evs i = Some e /\ keeps_event e) ->
+  list_view (at_ P T evs j) (at_ P T evs (j + n)).
+Proof.
+  induction n as [|n IH]; intros H.
+  - rewrite Nat.add_0_r. apply list_view_refl.
+  - eapply list_view_trans; [apply IH; intros i Hi; apply H; lia|].
+    destruct (H (j + n)%nat) as (e & He & Hk); [lia|].
+    replace (j + S n)%nat with (S (j + n)) by lia. unfold at_. rewrite (run_firstn_S P T evs _ _ He).
+    apply step_keeps. exact Hk.
+Qed.
+
+(* THEOREM 4.  The same `list` command typed again, with nothing in between but text lines and
+   commands other than `filter` and `connection`, prints exactly the same lines: items, counts,
+   header, separators. *)
+Theorem repeated_list T evs k k' c a :
+  nth_error evs k = Some (ECmd c) -> nth_error evs k' = Some (ECmd c) -> (k < k')%nat ->
+  resolved c = Some (s2l "list", a) ->
+  (forall i, (k < i < k')%nat -> exists e, nth_error evs i = Some e /\ keeps_event e) ->
+  exists o, nth_error (snd (run P T evs)) k = Some o /\ nth_error (snd (run P T evs)) k' = Some o.
+Proof.
+  intros Hk Hk' Hlt Hr Hb.
+  rewrite (run_nth P evs T k _ Hk), (run_nth P evs T k' _ Hk').
+  destruct (step_cmd_list P (fst (run P T (firstn k evs))) c a Hr) as [_ ->].
+  destruct (step_cmd_list P (fst (run P T (firstn k' evs))) c a Hr) as [_ ->].
+  eexists. split; [reflexivity|]. f_equal.
+  assert (V : list_view (at_ P T evs k) (at_ P T evs k')).
+  { replace k' with (k + (k' - k))%nat by lia. apply segment_keeps. intros i Hi.
+    destruct (Nat.eq_dec i k) as [->|Hne].
+    - exists (ECmd c). split; [exact Hk|]. cbn [keeps_event]. rewrite Hr. cbn [keeps_name].
+      split; intros E; apply str_eqb_eq in E; discriminate E.
+    - apply Hb. lia. }
+  exact (cmd_list_view _ _ a V).
+Qed.
+
+End Repeat.
+
+Print Assumptions record_is_delivered.
+Print Assumptions own_list_is_attempted.
+Print Assumptions list_event.
+Print Assumptions list_shows_delivered.
+Print Assumptions selected_scope_is_restriction.
+Print Assumptions repeated_list.
+
+(* ---- 5. non-vacuity and corners (empty protocol database) ----------------------------------------- *)
+Module ListExamples.
+Import SepExamples.
+
+Definition gr2 (t : Z) : pmsg :=
+  mkPmsg t (Some (s2l "wl_display")) 1 true (s2l "get_registry") [PObj 2 (Some (s2l "wl_registry")) true].
+Definition bind (t : Z) (iface : string) : pmsg :=
+  mkPmsg t (Some (s2l "wl_registry")) 2 true (s2l "bind") [PInt 1; PStr (s2l iface); PInt 1; PObj 3 None true].
+(* wl_display.delete_id of an identifier that was never created: resolution raises RuntimeError *)
+Definition del (t : Z) (v : Z) : pmsg :=
+  mkPmsg t (Some (s2l "wl_display")) 1 false (s2l "delete_id") [PInt v].
+
+(* two connections (A = x, B = y), five messages, then commands *)
+Definition evs : list event :=
+  [EMsg x (gr2 1000000); EMsg y (gr2 1100000); EMsg x (bind 1200000 "wl_compositor"); EMsg y (sy 1300000);
+   EMsg y (bind 1400000 "wl_shm");
+   (* 5 *) ECmd (s2l "list"); ECmd (s2l "connection B"); ECmd (s2l "list");
+   (* 8 *) ECmd (s2l "list wl_registry ~ 1"); ECmd (s2l "list ("); ECmd (s2l "l wl_registry ~ 5");
+   (* 11 *) ECmd (s2l "list ~ 0"); ECmd (s2l "list ~ -2"); ECmd (s2l "wl list ~ x"); ECmd (s2l "wlli ~ 1 ~ 2");
+   (* 15 *) EText (s2l "noise"); ECmd (s2l "list");
+   (* 17 *) EMsg y (del 1500000 77); ECmd (s2l "list"); ECmd (s2l "connection all"); ECmd (s2l "list")].
+Definition T0 := top0 (MAlways true) (MAlways false) false true false.
+Definition outs := snd (run [] T0 evs).
+
+Definition ascii (s : str) : str := filter (fun c => (32 <=? c)%N && (c <? 128)%N) s.
+Definition show2 (o : oline) : str :=
+  match o with
+  | OErr (_ :: Txt s :: _) => s2l "ERR " ++ ascii s
+  | OOM => s2l "OOM"
+  | _ => ascii (show1 o)
+  end.
+
+Example ex_log : forallb log_event evs = true.
+Proof. reflexivity. Qed.
+
+Example ex_resolved :
+  map (fun e => match e with ECmd c => resolved c | _ => None end) (firstn 15 (skipn 5 evs)) =
+  map (fun p => Some (s2l (fst p), s2l (snd p)))
+      [("list", ""); ("connection", "B"); ("list", ""); ("list", "wl_registry ~ 1"); ("list", "(");
+       ("list", "wl_registry ~ 5"); ("list", "~ 0"); ("list", "~ -2"); ("list", "~ x"); ("list", "~ 1 ~ 2")]%string
+  ++ [None; Some (s2l "list", []); None; Some (s2l "list", []); Some (s2l "connection", s2l "all")].
+Proof. vm_compute. reflexivity. Qed.
+
+(* `list` with no selection: all five, oldest first; `connection B` then `list`: B's three;
+   `list wl_registry ~ 1`: the last one of B's two matches, one message not checked;
+   `list (`: an error line and no item; cap 5 > 2 matches: both, nothing "not checked";
+   CORNERS: `~ 0` is "no cap" (all three), `~ -2` is cap 1, `~ x` is an error and nothing else,
+   `~ 1 ~ 2` is silently "no cap" *)
+Example ex_outputs :
+  map (map show2) (firstn 12 (skipn 5 outs)) =
+  map (map s2l)
+  [["Messages that match *:"; "msg 0"; "msg 100000"; "msg 200000"; "msg 300000"; "msg 400000"; "(5 matched, 0 didn't)"];
+   ["Switched to connection B"];
+   ["Messages that match *:"; "msg 100000"; "msg 300000"; "msg 400000"; "(3 matched, 0 didn't)"];
+   ["Messages that match [wl_registry.*(*), *.*(*=wl_registry)]:"; "msg 400000"; "(1 matched, 0 didn't, 2 not checked)"];
+   ["ERR Failed to parse ""("":    "; "Messages that match !:"; "  None of the 3 messages so far"];
+   ["Messages that match [wl_registry.*(*), *.*(*=wl_registry)]:"; "msg 100000"; "msg 400000"; "(2 matched, 1 didn't)"];
+   ["Messages that match *:"; "msg 100000"; "msg 300000"; "msg 400000"; "(3 matched, 0 didn't)"];
+   ["Messages that match *:"; "msg 400000"; "(1 matched, 0 didn't, 2 not checked)"];
+   ["ERR Expected number after '~', got ' x'"];
+   ["Messages that match *:"; "msg 100000"; "msg 300000"; "msg 400000"; "(3 matched, 0 didn't)"];
+   ["       |  noise"];
+   ["Messages that match *:"; "msg 100000"; "msg 300000"; "msg 400000"; "(3 matched, 0 didn't)"]]%string.
+Proof. vm_compute. reflexivity. Qed.
+
+Definition brief (l : list (nat * rmsg)) : list (nat * Z * str) := map (fun p => (fst p, m_time (snd p), m_name (snd p))) l.
+
+(* Theorem 1 on this run: the record at the end is exactly the five deliveries - the refused
+   delete_id (event 17) is not in it - and by computation *)
+Example ex_record_instance : kall (fst (run [] T0 evs)) = kall T0 ++ delivered [] T0 evs.
+Proof. exact (record_is_delivered [] evs T0 ex_log). Qed.
+Example ex_record_computed :
+  brief (delivered [] T0 evs) =
+  [(0%nat, 0, s2l "get_registry"); (1%nat, 100000, s2l "get_registry"); (0%nat, 200000, s2l "bind");
+   (1%nat, 300000, s2l "sync"); (1%nat, 400000, s2l "bind")] /\
+  brief (kall (fst (run [] T0 evs))) = brief (delivered [] T0 evs) /\
+  arrival_top [] (fst (run [] T0 (firstn 17 evs))) y (del 1500000 77) = ASoft (s2l "Id 77 not in object database").
+Proof. vm_compute. repeat split. Qed.
+
+(* Theorem 3 at event 8 (`list wl_registry ~ 1`, B selected), as an instance of the theorem ... *)
+Example ex_list_instance :
+  let s := at_ [] T0 evs 8 in
+  let mm := flt "wl_registry" in
+  exists o, nth_error (snd (run [] T0 evs)) 8 = Some o /\
+    shown_msgs o = lastn_opt (cap_of (Some 1)) (filter (fun p => matches mm (msg_view s p))
+                                                       (scope_run [] T0 (firstn 8 evs) (k_current (s_ctrl s)))).
+Proof.
+  cbn zeta.
+  assert (Hk : nth_error evs 8 = Some (ECmd (s2l "list wl_registry ~ 1"))) by (vm_compute; reflexivity).
+  assert (Hr : resolved (s2l "list wl_registry ~ 1") = Some (s2l "list", s2l "wl_registry ~ 1")) by (vm_compute; reflexivity).
+  assert (Hq : list_query (at_ [] T0 evs 8) (s2l "wl_registry ~ 1") = QList [] (flt "wl_registry") (Some 1))
+    by (vm_compute; reflexivity).
+  destruct (list_shows_delivered [] T0 evs 8 _ _ _ _ _ ex_log (idx_ok_top0 _ _ _ _ _) Hk Hr Hq) as (o & Ho & Hs & _).
+  exists o. split; [exact Ho|exact Hs].
+Qed.
+(* ... whose right-hand side is: scope = B's three messages, two match, the last one is shown *)
+Example ex_list_computed :
+  let s := at_ [] T0 evs 8 in
+  let mm := flt "wl_registry" in
+  k_current (s_ctrl s) = Some 1%nat /\
+  brief (scope_run [] T0 (firstn 8 evs) (Some 1%nat)) = [(1%nat, 100000, s2l "get_registry"); (1%nat, 300000, s2l "sync"); (1%nat, 400000, s2l "bind")] /\
+  brief (filter (fun p => matches mm (msg_view s p)) (scope_run [] T0 (firstn 8 evs) (Some 1%nat))) =
+    [(1%nat, 100000, s2l "get_registry"); (1%nat, 400000, s2l "bind")] /\
+  option_map (fun o => brief (shown_msgs o)) (nth_error outs 8) = Some [(1%nat, 400000, s2l "bind")].
+Proof. vm_compute. repeat split. Qed.
+
+(* Theorem 4 on this run: `list` at 7 and again at 16, with eight `list` variants and a text line
+   in between *)
+Example ex_repeated_instance : exists o, nth_error outs 7 = Some o /\ nth_error outs 16 = Some o.
+Proof.
+  unfold outs.
+  apply (repeated_list [] T0 evs 7 16 (s2l "list") []); [vm_compute; reflexivity|vm_compute; reflexivity|lia|vm_compute; reflexivity|].
+  intros i Hi.
+  assert (Hc : (i = 8 \/ i = 9 \/ i = 10 \/ i = 11 \/ i = 12 \/ i = 13 \/ i = 14 \/ i = 15)%nat) by lia.
+  repeat (destruct Hc as [->|Hc]); try subst i;
+    (eexists; split; [vm_compute; reflexivity|]; vm_compute; first [exact I|split; discriminate]).
+Qed.
+(* ... while with `connection B` in between the same command prints something else *)
+Example ex_not_repeated : nth_error outs 5 <> nth_error outs 7.
+Proof. vm_compute. discriminate. Qed.
+
+(* CORNER: a refused message is in the connection's own list but not in the record.  After the
+   refused delete_id (event 17), `list` with B selected shows FOUR messages, the refused one among
+   them; `connection all` then `list` shows FIVE, not six: the listing of the selected connection
+   is not the listing of everything restricted to that connection. *)
+Example corner_refused_listed :
+  map (map show2) (skipn 17 outs) =
+  map (map s2l)
+  [["       |  Id 77 not in object database"];
+   ["Messages that match *:"; "msg 100000"; "msg 300000"; "msg 400000"; "msg 500000"; "(4 matched, 0 didn't)"];
+   ["Showing messages from all connections"];
+   ["Messages that match *:"; "msg 0"; "msg 100000"; "msg 200000"; "msg 300000"; "msg 400000"; "(5 matched, 0 didn't)"]]%string /\
+  brief (scope_run [] T0 (firstn 18 evs) (Some 1%nat)) <> brief (on_conn 1 (scope_run [] T0 (firstn 18 evs) None)) /\
+  ~ none_refused [] T0 (firstn 18 evs) 1.
+Proof.
+  split; [vm_compute; reflexivity|]. split; [vm_compute; discriminate|].
+  intros H. apply (own_delivered [] _ T0 1%nat) in H. vm_compute in H. discriminate H.
+Qed.
+
+(* CORNER: why the side condition [idx_ok]: in a (unreachable) state whose record names a
+   connection that does not exist, `list` counts the message but prints no item *)
+Example corner_idx_ok_needed :
+  let s := set_ctrl (init_sess (MAlways true) (MAlways false) false true false)
+                    (mkCtrl (MAlways true) (MAlways false) None [(5%nat, mkRmsg 0 (Resolved 1 0) true (s2l "sync") [] None)] None) in
+  map show2 (snd (cmd_list s [])) = map s2l ["Messages that match *:"; "(1 matched, 0 didn't)"]%string.
+Proof. vm_compute. reflexivity. Qed.
+
+(* the cap: N >= 1 is N; 0 is no cap; negative is 1 *)
+Example ex_caps : cap_of (Some 3) = Some 3%nat /\ cap_of (Some 0) = None /\ cap_of (Some (-2)) = Some 1%nat /\ cap_of None = None.
+Proof. repeat split. Qed.
+
+End ListExamples.
